@@ -318,7 +318,10 @@ impl Typer
 								location,
 								previous: old_identifier.location.clone(),
 							};
-							return Some(Err(Poison::Error(error)));
+							// Keep the error in the reference (as for
+							// NotAStructure): an assignment keeps its reference.
+							reference.base = Err(error.into());
+							return Some(Err(Poison::Poisoned));
 						}
 					}
 				}
